@@ -16,3 +16,6 @@ open BV
 #print axioms C14_guard_derived_quarter
 #print axioms C14_guard_full_date
 #print axioms C14_guard_needs_exact_fields
+#print axioms tie_isCalGt
+#print axioms tie_isValidWeekPattern
+#print axioms tie_quarterFromMonth
